@@ -235,6 +235,9 @@ def generate(seed, count, fragment, tables=4):
     return out
 
 
+_PICKS = [False]   # random picks in compose blocks (set by gen_nested(picks=True) for C19's random programs)
+
+
 def _compose_block(g, rng, subs, depth, maxlen, minlen=1, inloop=False):
     """Statements of a compose block: wait/log/require/durations/if/while/do S.../terminate."""
     out = []
@@ -242,6 +245,10 @@ def _compose_block(g, rng, subs, depth, maxlen, minlen=1, inloop=False):
         kinds = ["wait", "wait", "log", "waitfor", "waituntil", "require"]
         if subs:
             kinds += ["sdo", "sdo", "sdo", "sdofor", "sdountil"]
+        if _PICKS[0] and not inloop:
+            kinds += ["rand", "disc"]
+            if len(subs) >= 2:
+                kinds += ["schoose", "schoose", "sshuffle"]
         if depth < 2:
             kinds += ["if", "while"]
             if subs:
@@ -249,6 +256,17 @@ def _compose_block(g, rng, subs, depth, maxlen, minlen=1, inloop=False):
         if depth == 0:
             kinds += ["end"]
         k = rng.choice(kinds)
+        if k in ("schoose", "sshuffle"):
+            ss = rng.sample(subs, rng.randint(2, min(3, len(subs))))
+            out.append([k, [[x, rng.choice([1, 1, 2, 3])] for x in ss]])
+            continue
+        if k == "rand":
+            lo = rng.randint(0, 1)
+            out.append(["rand", lo, lo + rng.randint(1, 2), g.lab()])
+            continue
+        if k == "disc":
+            out.append(["disc", [[v, rng.choice([1, 2, 3])] for v in rng.sample(range(5), 2)], g.lab()])
+            continue
         if k == "try":
             # try/interrupt in a compose block; handlers are productive (start with a step or abort)
             body = _compose_block(g, rng, subs, depth + 1, 2)
@@ -294,11 +312,12 @@ def _compose_block(g, rng, subs, depth, maxlen, minlen=1, inloop=False):
     return out
 
 
-def gen_nested(rng):
+def gen_nested(rng, picks=False):
     """A program with nested scenarios: a top-level scenario with a compose block invoking
     sub-scenarios (which have their own monitors, records, terminate-when / terminate-simulation-
     when / terminate-after statements and possibly compose blocks invoking further scenarios)."""
-    horizon = rng.randint(4, 7)
+    _PICKS[0] = picks
+    horizon = rng.randint(4, 7) if not picks else rng.randint(3, 5)
     cnames = [f"c{i}" for i in range(rng.randint(2, 4))]
     g = G(rng, cnames, "core")
     nmain = rng.randint(1, 2)
@@ -358,7 +377,7 @@ def gen_nested(rng):
 
 def _has_yield_compose(stmts):
     for s in stmts:
-        if s[0] in ("wait", "waitfor", "waituntil", "sdo", "sdofor", "sdountil", "terminate", "termsim"):
+        if s[0] in ("wait", "waitfor", "waituntil", "sdo", "sdofor", "sdountil", "terminate", "termsim", "schoose", "sshuffle"):
             return True
         if s[0] == "if" and (_has_yield_compose(s[2]) or _has_yield_compose(s[3])):
             return True
@@ -369,11 +388,12 @@ def _has_yield_compose(stmts):
     return False
 
 
-def generate_nested(seed, count, tables=3):
+def generate_nested(seed, count, tables=3, picks=False):
     rng = random.Random(seed)
     out = []
     for _ in range(count):
-        case = gen_nested(rng)
+        case = gen_nested(rng, picks)
+        _PICKS[0] = False
         out.append(case)
         names = [n for n in case["table"] if n not in ("T", "F")]
         for _k in range(tables - 1):
